@@ -102,7 +102,7 @@ impl CmdBuild {
                 if self.opt.check && bundle {
                     // Stage in the temp dir; the bundle is compared as a whole
                     // after the loop.
-                    utils::write_file_if_changed(&dst, emitter.as_str().as_bytes())?;
+                    utils::write_output_if_changed(&dst, emitter.as_str().as_bytes())?;
                 } else if self.opt.check && !exclude_check {
                     let output = fs::read_to_string(&dst).unwrap_or(String::new());
                     if output != emitter.as_str() {
@@ -112,7 +112,8 @@ impl CmdBuild {
                         all_pass = false;
                     }
                 } else {
-                    let written = utils::write_file_if_changed(&dst, emitter.as_str().as_bytes())?;
+                    let written =
+                        utils::write_output_if_changed(&dst, emitter.as_str().as_bytes())?;
                     if written {
                         debug!("Output file ({})", dst.to_string_lossy());
                     }
@@ -129,7 +130,7 @@ impl CmdBuild {
                             std::fs::create_dir_all(map.parent().unwrap()).into_diagnostic()?;
                         }
 
-                        let written = utils::write_file_if_changed(&map, &source_map)?;
+                        let written = utils::write_output_if_changed(&map, &source_map)?;
                         if written {
                             debug!("Output map ({})", map.to_string_lossy());
                         }
@@ -228,7 +229,7 @@ impl CmdBuild {
             {
                 std::fs::create_dir_all(parent).into_diagnostic()?;
             }
-            let written = utils::write_file_if_changed(&target_path, text.as_bytes())?;
+            let written = utils::write_output_if_changed(&target_path, text.as_bytes())?;
             if written {
                 debug!("Output file ({})", target_path.to_string_lossy());
             }
@@ -250,7 +251,7 @@ impl CmdBuild {
         {
             std::fs::create_dir_all(parent).into_diagnostic()?;
         }
-        utils::write_file_if_changed(&filelist_path, text.as_bytes())?;
+        utils::write_output_if_changed(&filelist_path, text.as_bytes())?;
 
         info!("Output filelist ({})", filelist_path.to_string_lossy());
         metadata.add_generated_file(filelist_path);
